@@ -301,6 +301,58 @@ func runC07(cfg Config) {
 			monitor("Tar reported success on a cancelled context with an incomplete archive", "cancel fn=Tar")
 		}
 	}
+	// UnTarIndex, cancelled while the assembler waits and the feeder has already handed out every chunk: the chunks
+	// still queued must not be dropped silently.  The index is cut at a node boundary of the archive (a prefix plain
+	// UnTar accepts), so that what has been written to the pipe so far looks like a complete archive.
+	{
+		var cuts []int
+		for i := 1; i < len(catar) && len(cuts) < cfg.N(3, 12); i++ {
+			fs := &recFS{}
+			if err := desync.UnTar(context.Background(), bytes.NewReader(catar[:i]), fs); err == nil && len(fs.nodes) > 0 && len(fs.nodes) < wantNodes {
+				if len(cuts) == 0 || i-cuts[len(cuts)-1] > 40 {
+					cuts = append(cuts, i)
+				}
+			}
+		}
+		for _, cut := range cuts {
+			st := newMemStore()
+			var ix desync.Index
+			off := 0
+			for _, part := range [][]byte{catar[:cut], catar[cut:]} {
+				id := desync.Digest.Sum(part)
+				st.chunks[id] = part
+				ix.Chunks = append(ix.Chunks, desync.IndexChunk{ID: id, Start: uint64(off), Size: uint64(len(part))})
+				off += len(part)
+			}
+			for try := 0; try < cfg.N(12, 40); try++ {
+				ctx, cancel := context.WithCancel(context.Background())
+				var hits int64
+				desync.VerifYield = func(site string) {
+					if site == "UnTarIndex.assemble" && atomic.AddInt64(&hits, 1) == 2 {
+						time.Sleep(20 * time.Millisecond) // the feeder queues the last chunk and leaves
+						cancel()
+					}
+				}
+				fs := &recFS{}
+				done := make(chan error, 1)
+				go func() { done <- desync.UnTarIndex(ctx, fs, ix, st, 1, desync.NewProgressBar("")) }()
+				var err error
+				select {
+				case err = <-done:
+				case <-time.After(20 * time.Second):
+					err = errors.New("hang")
+				}
+				desync.VerifYield = nil
+				cancel()
+				caseLine := fmt.Sprintf("cancel fn=UnTarIndex at=assembler-after-feeder cut=%d of=%d try=%d", cut, len(catar), try)
+				rep.Count(caseLine, true, "fn:UnTarIndex/assembler", fmt.Sprintf("outcome:%v", err == nil))
+				if err == nil && len(fs.nodes) != wantNodes {
+					monitor(fmt.Sprintf("UnTarIndex reported success after a cancellation with %d of %d nodes unpacked (the queued chunks were dropped)", len(fs.nodes), wantNodes), caseLine)
+					break
+				}
+			}
+		}
+	}
 	// UnTar onto the real file system (LocalFS restores directory times at the end: finishUntar),
 	// cancelled after k bytes of the archive have been read, for k spread over the archive
 	{
